@@ -92,6 +92,23 @@ def arr(n_true, n=4):
     return "[" + ", ".join("true" if i in n_true else "false" for i in range(n)) + "]"
 
 
+def resurrecting(inst):
+    return any(v[0].startswith(("Resurrect", "UpgradeStore")) for v in list(inst.fin_act.values()) + list(inst.drop_act.values()))
+
+
+def alias_of(inst):
+    """obligations of other properties that ARE the statement of this instance's property in its context"""
+    a = ""
+    if inst.fault:
+        # C07: "every safety guarantee (C01, C03, C05, C08) keeps holding for all subsequent operations"
+        a += " | alias=C07:C01+C03+C04+C05+C08+C11"
+    if resurrecting(inst) and "C06" in inst.props:
+        # C06: "every object reachable when the collection ends has survived intact ... the rest is still reclaimed
+        # ... without a second finalization"
+        a += " | alias=C06:C01+C02+C03+C05"
+    return a
+
+
 def render(inst):
     L = []
     a = L.append
@@ -103,8 +120,9 @@ def render(inst):
     if not feats:
         feats = ["full"]
     bound = "heap of %d objects, 2 traced + 1 untraced slot each, every control choice fixed: %s" % (inst.n, inst.describe())
-    a("//@ %s | bounded: %s | deciding | %s | feat=%s | fn=collect_cycles,collect,__collect,trace_counting,trace_roots,deallocate_list,Cc::drop,Cc::clone | timeout=300 | safety=%s | l2" % (
-        " ".join(inst.props), bound.replace("|", "/"), inst.tier, ",".join(feats), "C01,C03,C04,C07,C08" if weak else "C01,C03,C04,C07"))
+    a("//@ %s | bounded: %s | deciding | %s | feat=%s | fn=collect_cycles,collect,__collect,trace_counting,trace_roots,deallocate_list,Cc::drop,Cc::clone | timeout=300 | safety=%s%s | l2" % (
+        " ".join(inst.props), bound.replace("|", "/"), inst.tier, ",".join(feats),
+        ("C01,C03,C04,C07,C08" if weak else "C01,C03,C04,C07") + (",C06" if resurrecting(inst) else ""), alias_of(inst)))
     if weak:
         a('#[cfg(feature = "weak-ptrs")]')
     if uses_fin:
@@ -344,6 +362,21 @@ def finalizer_family(tier, rng):
                     o2 = list(reversed(order))
                     out.append(Inst(n, e, set(), o2, fin_act={who: (act, 0)}, family="fin_%s_%s" % (act.lower(), nm),
                                     props=["C01", "C03", "C04", "C05", "C06", "C11", "C12"], tier="thorough"))
+    # mixed sets: some members already finalized (history), another member's finalizer resurrects — the
+    # finalize-or-deallocate decision must consider EVERY member of the set, in whatever order it is visited
+    for nm, e, n in [("two_cycle", NAMED2["two_cycle"], 2), ("lasso", NAMED3["lasso"], 3), ("ring", NAMED3["ring"], 3), ("shared_tail", NAMED3["shared_tail"], 3)]:
+        for act in ["ResurrectSelf", "ResurrectNeighbour", "ResurrectIntoSelf"]:
+            for who in range(n):
+                others = [i for i in range(n) if i != who]
+                fins = [[o] for o in others] + ([others] if len(others) > 1 else [])
+                for fin in fins:
+                    for rev in (False, True):
+                        order = [("release", i) for i in range(n)]
+                        if rev:
+                            order = list(reversed(order))
+                        t = "quick" if (n == 2 or (nm == "lasso" and act == "ResurrectSelf" and len(fin) == 1)) else "thorough"
+                        out.append(Inst(n, e, set(), order, fin=fin, fin_act={who: (act, 0)}, family="finmix_%s_%s" % (act.lower(), nm),
+                                        props=["C01", "C03", "C05", "C06"], tier=t))
     # the reference-count path: last handle dropped, finalizer acts (script = release)
     for act in acts:
         out.append(Inst(1, [], {0}, [], fin_act={0: (act, 0)}, script="release0", family="rcfin_%s" % act.lower(),
@@ -453,8 +486,8 @@ def select(insts, cap, seed):
         return insts
     # the reference-count-path scenarios (1-2 objects, a few seconds each) are always kept: they are
     # the only ones that exercise callbacks re-entering the API from a plain Cc::drop
-    must = [i for i in insts if i.family.startswith(("rcfin", "rcdrop", "weak_rc"))]
-    insts = [i for i in insts if not i.family.startswith(("rcfin", "rcdrop", "weak_rc"))]
+    must = [i for i in insts if i.family.startswith(("rcfin", "rcdrop", "weak_rc", "finmix_resurrectself_two_cycle"))]
+    insts = [i for i in insts if not i.family.startswith(("rcfin", "rcdrop", "weak_rc", "finmix_resurrectself_two_cycle"))]
     cap = max(0, cap - len(must))
     rng = random.Random(seed)
     def coarse(f):
